@@ -920,6 +920,21 @@ class WorldImpl(World):
             raise BlockingIOError(errno.EAGAIN, 'Resource temporarily unavailable')
         if a[0] == 'err':
             self.log(role, 'sut_send_err', a[1])
+            # EPIPE / ECONNRESET on a send mean that the peer is gone: it is, from here on (the proxy's later reads
+            # from that socket see the end of the stream, as they would on a real connection -- a "broken pipe" to
+            # a peer that lives on and stays silent does not exist)
+            peer = None
+            if role.startswith('c') and role[1:].isdigit() and int(role[1:]) < len(self.clients):
+                peer = self.clients[int(role[1:])]
+            elif role.startswith('u') and role[1:].isdigit() and int(role[1:]) < len(self.origin_conns):
+                peer = self.origin_conns[int(role[1:])]
+            if peer is not None and not peer.closed:
+                was = self.in_env
+                self.in_env = True
+                try:
+                    peer.close()
+                finally:
+                    self.in_env = was
             if a[1] == errno.EPIPE:
                 raise BrokenPipeError(a[1], os.strerror(a[1]))
             raise ConnectionResetError(a[1], os.strerror(a[1]))
